@@ -281,11 +281,31 @@ def eigen_solver_contract(eng, scalar="d"):
         ps = int(round(math.sqrt(size / ty.size)))
         D = rows
         C = [[_term(eng, eng.load(st, data + (c2 * ps + r) * ty.size, ty)) for c2 in range(D)] for r in range(D)]
+        if getattr(eng, "cut_eigen_input", False):
+            # cut point: the matrix handed over becomes fresh variables (shared by polynomial normal form with harness cuts)
+            from .models import cut_value
+            C = [[cut_value(eng, st, C[r][c2], "eigC_%d%d" % (r, c2)) if z3.is_expr(C[r][c2]) else C[r][c2] for c2 in range(D)] for r in range(D)]
+        # Eigen reads the lower triangle only
+        C = [[C[r][c2] if r >= c2 else C[c2][r] for c2 in range(D)] for r in range(D)]
+        # the solver is a function of its input: the same matrix (same terms) gets the same decomposition
+        mkey = tuple(C[r][c2].get_id() if z3.is_expr(C[r][c2]) else ("c", C[r][c2]) for r in range(D) for c2 in range(D))
+        memo = st.user.setdefault("eig_memo", {})
         tthis = ins.a[1][0][0][2].resolve()
         t = tthis.elem.resolve() if tthis.k == "ptr" else None
         offs = t.offsets if t is not None and t.k == "struct" else [0, D * D * ty.size]
+        if mkey in memo:
+            V, L = memo[mkey]
+            for c2 in range(D):
+                for r in range(D):
+                    eng.store(st, this + offs[0] + (c2 * D + r) * ty.size, ty, V[r][c2])
+            for i in range(D):
+                eng.store(st, this + offs[1] + i * ty.size, ty, L[i])
+            eng.contracts_hit["SelfAdjointEigenSolver::compute"] = eng.contracts_hit.get("SelfAdjointEigenSolver::compute", 0) + 1
+            return this
         V = [[SV(eng.fresh("eigV", z3.RealSort())) for _ in range(D)] for _ in range(D)]
         L = [SV(eng.fresh("eigL", z3.RealSort())) for _ in range(D)]
+        memo[mkey] = (V, L)
+        eng._keep.append([x for row in C for x in row if z3.is_expr(x)])
         for i in range(D):
             for j in range(i, D):
                 st.assume(eng.mark_def(sum((V[r][i].e * V[r][j].e for r in range(D)), RV(0)) == (1 if i == j else 0)))
@@ -295,6 +315,10 @@ def eigen_solver_contract(eng, scalar="d"):
         for r in range(D):
             for j in range(D):
                 st.assume(eng.mark_def(sum((C[r][k2] * V[k2][j].e for k2 in range(D)), RV(0)) == L[j].e * V[r][j].e))
+        # consequences of the above, stated to spare the solver the derivation: trace and (2x2) determinant
+        st.assume(eng.mark_def(sum((L[i].e for i in range(D)), RV(0)) == sum((C[i][i] for i in range(D)), RV(0))))
+        if D == 2:
+            st.assume(eng.mark_def(L[0].e * L[1].e == C[0][0] * C[1][1] - C[0][1] * C[1][0]))
         for c2 in range(D):
             for r in range(D):
                 eng.store(st, this + offs[0] + (c2 * D + r) * ty.size, ty, V[r][c2])
